@@ -284,6 +284,19 @@ impl<T> VxIter<T> {
     { unimplemented!() }
 }
 
+/// `v.into_iter()` on a Vec, as an eager iterator (declared substitution)
+#[verifier::external_body]
+pub fn vx_vec_into_iter<T>(v: Vec<T>) -> (r: VxIter<T>)
+    ensures r.seq() == v@,
+{ unimplemented!() }
+
+/// R10c (owned items): move item i out of the collected items; slot i is unspecified afterwards and never read again
+#[verifier::external_body]
+pub fn vx_take<T>(v: &mut Vec<T>, i: usize) -> (r: T)
+    requires i < old(v)@.len(),
+    ensures r == old(v)@[i as int], final(v)@.len() == old(v)@.len(), forall|j: int| 0 <= j < old(v)@.len() && j != i ==> #[trigger] final(v)@[j] == old(v)@[j],
+{ unimplemented!() }
+
 /// `v.iter()` on a Vec, as an eager iterator (used through an explicit substitution, listed in the evidence)
 #[verifier::external_body]
 pub fn vx_vec_iter<T>(v: &Vec<T>) -> (r: VxIter<&T>)
